@@ -1,61 +1,73 @@
 """C43 - PersistentDict keeps what was last written.
 
-Carrier: bluesky/utils: PersistentDict.__init__, __setitem__, __getitem__, __delitem__, popitem, flush, reload, __iter__,
-__len__ (+ the MutableMapping mix-ins pop / clear / update / setdefault, defined through those).
-Abstract state: disk(dir): key -> stored bytes (zict.File), cache: key -> value.  Representation invariant:
-  dom(cache) == dom(disk)  and  load(disk[k]) == the value last passed for k through __setitem__ / flush.
-Every public operation is proved, from an arbitrary state satisfying the invariant (two generic existing keys, one new
-key), to re-establish it and to have its dict effect on the cache; reopening the directory (the real __init__ / reload)
-yields exactly load(disk[k]) for every k.  By induction over the operation history: a reopened PersistentDict holds
-exactly the keys and top-level values most recently set, deleted, popped or flushed.
+Carrier: bluesky/utils: PersistentDict.__init__ (incl. the nested garbage-collection callback `finalize`), __setitem__,
+__getitem__, __delitem__, popitem, flush, reload, __iter__, __len__ (+ the MutableMapping mix-ins pop / clear / update /
+setdefault / items ..., defined through those).
+
+Abstract state (ghost, written from the statement):
+  mem     : key -> contents the mapping shows now       (set / in-place edit / reload change it)
+  written : key -> contents at the last write of the key (set / update / setdefault-new / flush; delete / pop remove it)
+Top-level values are objects with *mutable contents* (a symbolic integer stands for everything msgpack round-trips); an
+in-place edit changes the contents of the object obtained through the real __getitem__, dump() snapshots the contents,
+load() gives a new object with the snapshot.
+
+Representation invariant INV(instance, directory):
+  R1  the mapping (real __iter__ / __getitem__ / __len__) shows exactly mem,
+  R2  the directory (zict.File store) holds exactly dump(written),                       dom(mem) == dom(written),
+  R3  the garbage-collection write-back is armed: a weakref.finalize registered for the instance is alive, and every alive
+      one reads the very dictionary the instance uses as its cache and writes to the instance's file store
+      (= "what the finalizer will write is the mapping's final contents").
+Step contract (task `step`): from an *arbitrary* INV state (0-2 generic existing keys, each clean or edited in place and
+not yet flushed; a new key) every public operation has its dictionary effect on (mem, written), re-establishes INV, and a
+closing of the instance right after it gives:  no finalizer run (crash / kill)  -> a new instance shows `written`;
+garbage collection (the documented write-back runs) -> a new instance shows `mem`.  __init__ establishes INV for the
+new instance.  By induction over the history (set of a new / existing key / of the very object already stored, delete,
+pop, popitem, clear, update, setdefault, in-place edit, flush, reload, reads, absent-key errors; any reopen points, either
+kind of closing): the statement.  Methods the class defines itself (e.g. an added pop / clear override) are executed
+instead of the assumed mix-in.
+Known finding C43-reload-detaches-gc-writeback: the unchanged reload() rebinds self._cache and so breaks R3 (see
+patches/C43-reload-keeps-cache-identity.diff and patches/C43-reload-detaches-gc-writeback.known.json).
+Task family `history-*` re-checks the end-to-end clause on every operation sequence of length 3 (incl. reopen points) from
+a mixed state - a bounded cross-check of the invariant's strength with directly observable counter-examples.
 """
 from .lib import *
 
 PROP = "C43"
 MU = "bluesky.utils"
 Q = f"{MU}:PersistentDict"
-TRUSTED = ["zict.File(dir) is a persistent map str -> bytes bound to the directory; zict.Func(dump, load, d)[k] = v stores dump(v), reading gives load(stored)",
-           "A-MSGPACK: load(dump(v)) is v's value for the property's value domain (modelled as an opaque round trip)",
-           "collections.abc.MutableMapping mix-ins: pop / clear / update / setdefault are defined through __getitem__ / __setitem__ / __delitem__ / popitem (CPython's definitions)",
-           "weakref.finalize only registers a callback (the write at garbage collection is not modelled)",
-           "keys are used only as dictionary keys (generic representatives 'a', 'b' for existing keys, 'c' for a new one)"]
-NOT_DECIDED = "crashes inside one operation; the finalizer's write at garbage collection; two live instances on one directory"
+KF = "C43-reload-detaches-gc-writeback"
+TRUSTED = ["zict.File(dir) is a persistent map str -> bytes bound to the directory (update(pairs) stores every pair); zict.Func(dump, load, d)[k] = v stores dump(v), reading gives load(stored), items() loads every stored pair",
+           "A-MSGPACK: load(dump(v)) is a new object with v's contents at the time of the dump, for the property's value domain (contents = one symbolic integer per object, changed by an in-place edit)",
+           "collections.abc.MutableMapping mix-ins: pop / clear / update / setdefault / items / keys / values / get / __contains__ are defined through __getitem__ / __setitem__ / __delitem__ / popitem / __iter__ (CPython's definitions)",
+           "weakref.finalize(obj, f, *args): one-shot - the first call (or obj's garbage collection / interpreter exit) runs f(*args) and makes it dead, later calls do nothing; detach() disarms it; a crash / kill runs nothing",
+           "garbage collection of an instance = its alive finalizers run (latest registered first), nothing else touches the directory",
+           "keys are used only as dictionary keys (generic representatives 'a', 'b' for existing keys, 'c' for a new one, 'zz' for an absent one)"]
+NOT_DECIDED = ("crashes *inside* one operation (between the cache update and the file write); two live instances on one directory; "
+               "values outside msgpack's round trip (tuples come back as lists ...); the file system itself (zict.File)")
+
+INV_CACHE = f"{Q}#invariant[R1: after every operation the mapping shows exactly the keys and contents of the dictionary model]"
+INV_DISK = f"{Q}#invariant[R2: after every operation the directory holds exactly the last written contents of exactly the present keys]"
+INV_FIN = f"{Q}#invariant[R3: after every operation the garbage-collection write-back is armed and reads the instance's current cache]"
+OP_RES = f"{Q}#ensures[every operation returns / raises what a dict would (KeyError for absent keys, no other exception)]"
+CLOSE_CRASH = f"{Q}#ensures[reopened without the finalizer having run: exactly the keys and contents last set / flushed, deleted and popped keys absent]"
+CLOSE_GC = f"{Q}#ensures[reopened after garbage collection of the instance: exactly the final keys and contents (write-back of unflushed in-place edits, nothing stale)]"
+INIT_ENS = f"{Q}.__init__#ensures[a new instance shows load(stored) for exactly the stored keys and arms the write-back on its own cache (INV)]"
+HIST = f"{Q}#ensures[history of 3 operations + closing: the reopened mapping holds exactly what was last written]"
+
+
+class Val(Opaque):
+    """a top-level value: an object with mutable contents"""
+
+    def __init__(self, name, content):
+        Opaque.__init__(self, name, {"token": "value", "truth": True})
+        self.content = content
 
 
 class Stored:
-    """what zict.File holds for a key: the dump of a value"""
+    """what zict.File holds for a key: the dump of a value = a snapshot of its contents"""
 
-    def __init__(self, value):
-        self.value = value
-
-
-def install(I, disks):
-    w = I.w
-
-    def zfile(I_, a, k):
-        d = disks.setdefault(a[0], {})
-        return Opaque(f"zict.File({a[0]})", {"attrs": {"$store": d}, "isinstance_default": False, "truth": True,
-                                               "methods": {"update": lambda I2, o, a2, k2: d.update(dict(I2.run(I2.iterate(a2[0]))))}})
-
-    def zfunc(I_, a, k):
-        dump, load, f = a
-        d = f.spec["attrs"]["$store"]
-
-        def setitem(I2, o, key, v):
-            d[key] = I2.call_value(dump, v)
-
-        def delitem(I2, o, key):
-            if key not in d:
-                I2.raise_("KeyError", key)
-            del d[key]
-        return Opaque("zict.Func", {"setitem": setitem, "delitem": delitem, "isinstance_default": False, "truth": True,
-                                    "getitem": lambda I2, o, key: I2.call_value(load, d[key]) if key in d else I2.raise_("KeyError", key),
-                                    "methods": {"items": lambda I2, o, a2, k2: [(kk, I2.call_value(load, vv)) for kk, vv in d.items()]}})
-    w.stubs["zict.File"] = zfile
-    w.stubs["zict.Func"] = zfunc
-    w.stubs["weakref.finalize"] = lambda I_, a, k: None
-    I.call_hooks[f"{Q}._dump"] = lambda I_, f, a, k: _ret(Stored(a[-1]))
-    I.call_hooks[f"{Q}._load"] = lambda I_, f, a, k: _ret(a[-1].value)
+    def __init__(self, content):
+        self.content = content
 
 
 def _ret(v):
@@ -63,14 +75,145 @@ def _ret(v):
     yield
 
 
-def open_dict(I, directory="dir"):
-    o = construct(I, Q, directory)
-    add_mixins(I, o)
-    return o
+class Env:
+    """assumed contracts of zict / weakref / msgpack + the registry of finalizers"""
+
+    def __init__(self, I):
+        self.I = I
+        self.disks = {}
+        self.finalizers = []
+        self.n = 0
+        w = I.w
+        env = self
+
+        def mapping(name, d, enc, dec):
+            """a MutableMapping over the store d: writing stores enc(value), reading gives dec(stored)"""
+            def getitem(I2, o, key):
+                return dec(I2, d[key]) if key in d else I2.raise_("KeyError", key)
+
+            def setitem(I2, o, key, v):
+                d[key] = enc(I2, v)
+
+            def delitem(I2, o, key):
+                if key not in d:
+                    I2.raise_("KeyError", key)
+                del d[key]
+
+            def update(I2, o, a2, k2):
+                for src in list(a2) + [k2]:
+                    pairs = list(src.items()) if isinstance(src, dict) else [tuple(p) for p in I2.run(I2.iterate(src))]
+                    for kk, vv in pairs:
+                        d[kk] = enc(I2, vv)
+
+            def pop(I2, o, a2, k2):
+                if a2[0] not in d:
+                    return a2[1] if len(a2) > 1 else I2.raise_("KeyError", a2[0])
+                return dec(I2, d.pop(a2[0]))
+            return Opaque(name, {"attrs": {"$store": d}, "isinstance_default": False, "truth": True,
+                                 "getitem": getitem, "setitem": setitem, "delitem": delitem,
+                                 "contains": lambda I2, o, key: key in d, "iter": lambda I2, o: list(d), "len": lambda I2, o: len(d),
+                                 "methods": {"update": update, "pop": pop,
+                                             "items": lambda I2, o, a2, k2: [(kk, dec(I2, vv)) for kk, vv in d.items()],
+                                             "keys": lambda I2, o, a2, k2: list(d),
+                                             "values": lambda I2, o, a2, k2: [dec(I2, vv) for vv in d.values()],
+                                             "get": lambda I2, o, a2, k2: dec(I2, d[a2[0]]) if a2[0] in d else (a2[1] if len(a2) > 1 else None),
+                                             "clear": lambda I2, o, a2, k2: d.clear(),
+                                             "flush": lambda I2, o, a2, k2: None, "close": lambda I2, o, a2, k2: None}})
+
+        def zfile(I_, a, k):
+            d = env.disks.setdefault(a[0], {})
+            return mapping(f"zict.File({a[0]})", d, lambda I2, v: v, lambda I2, s: s)
+
+        def zfunc(I_, a, k):
+            dump, load, f = a
+            d = f.spec["attrs"]["$store"]
+            return mapping("zict.Func", d, lambda I2, v: I2.call_value(dump, v), lambda I2, s: I2.call_value(load, s))
+
+        def finalize(I_, a, k):
+            obj, func, args = a[0], a[1], list(a[2:])
+            st = {"alive": True, "obj": obj, "func": func, "args": args, "kwargs": dict(k)}
+
+            def call(I2, o, a2, k2):
+                if not st["alive"]:
+                    return None
+                st["alive"] = False
+                return I2.call_value(st["func"], *st["args"], **st["kwargs"])
+
+            def detach(I2, o, a2, k2):
+                if not st["alive"]:
+                    return None
+                st["alive"] = False
+                return (st["obj"], st["func"], tuple(st["args"]), st["kwargs"])
+
+            def peek(I2, o, a2, k2):
+                return (st["obj"], st["func"], tuple(st["args"]), st["kwargs"]) if st["alive"] else None
+            f = Opaque("weakref.finalize", {"truth": True, "isinstance_default": False, "state": st,
+                                            "methods": {"__call__": call, "detach": detach, "peek": peek},
+                                            "dyn_attrs": {"alive": lambda I2, o: st["alive"]}, "attrs": {"atexit": True}})
+            env.finalizers.append(f)
+            return f
+        w.stubs["zict.File"] = zfile
+        w.stubs["zict.Func"] = zfunc
+        w.stubs["weakref.finalize"] = finalize
+        I.call_hooks[f"{Q}._dump"] = lambda I_, f, a, k: _ret(self.dump(a[-1]))
+        I.call_hooks[f"{Q}._load"] = lambda I_, f, a, k: _ret(self.load(a[-1]))
+
+    # ---- A-MSGPACK
+    def dump(self, v):
+        if not isinstance(v, Val):
+            raise EngineError(f"dump of a non-value {v!r}")
+        return Stored(v.content)
+
+    def load(self, s):
+        if not isinstance(s, Stored):
+            raise EngineError(f"load of something that was not dumped: {s!r}")
+        self.n += 1
+        return Val(f"loaded{self.n}", s.content)
+
+    def value(self, what):
+        """a fresh value with arbitrary contents"""
+        self.n += 1
+        return Val(f"value{self.n}", self.I.w.int(f"contents#{self.n}({what})"))
+
+    def contents(self, what):
+        self.n += 1
+        return self.I.w.int(f"contents#{self.n}({what})")
+
+    # ---- instances
+    def open(self, directory="dir"):
+        o = construct(self.I, Q, directory)
+        add_mixins(self.I, o)
+        return o
+
+    def finalizers_of(self, o):
+        return [f for f in self.finalizers if f.spec["state"]["obj"] is o]
+
+    def collect(self, o):
+        """garbage collection of the instance: its alive finalizers run"""
+        for f in reversed(self.finalizers_of(o)):
+            if f.spec["state"]["alive"]:
+                self.I.call_value(f)
+
+    def armed(self, o):
+        """R3"""
+        alive = [f.spec["state"] for f in self.finalizers_of(o) if f.spec["state"]["alive"]]
+        if not alive:
+            return False
+        cache = o.attrs.get("_cache")
+        stores = [x for x in (o.attrs.get("_file"), o.attrs.get("_func")) if x is not None]
+        store = self.disks.get(o.attrs.get("_directory"))
+        for st in alive:
+            if not any(x is cache for x in st["args"]):
+                return False
+            if not any(any(x is s for s in stores) for x in st["args"]):
+                return False
+        return isinstance(cache, dict) and store is not None and all(isinstance(s, Opaque) and s.spec["attrs"]["$store"] is store for s in stores)
 
 
 def add_mixins(I, o):
-    """CPython's MutableMapping mix-in methods, in terms of the object's own dunder methods"""
+    """CPython's MutableMapping / Mapping mix-in methods, in terms of the object's own dunder methods"""
+    MISSING = object()
+
     def pop(I_, a, k):
         key = a[0]
         try:
@@ -104,127 +247,338 @@ def add_mixins(I, o):
             I_.run(I_.setitem(o, a[0], a[1] if len(a) > 1 else None))
             return a[1] if len(a) > 1 else None
 
+    def keys(I_, a, k):
+        return list(I_.run(I_.iterate(o)))
+
     def items(I_, a, k):
         return [(kk, I_.run(I_.getitem(o, kk))) for kk in I_.run(I_.iterate(o))]
-    for name, f in (("pop", pop), ("clear", clear), ("update", update), ("setdefault", setdefault), ("items", items)):
-        o.attrs[name] = native(f)
 
+    def values(I_, a, k):
+        return [I_.run(I_.getitem(o, kk)) for kk in I_.run(I_.iterate(o))]
 
-def tok(name):
-    return Opaque(name, {"token": "value", "truth": True})
-
-
-def state(I, w, disks):
-    """an arbitrary state satisfying the invariant: keys a, b present with values va, vb (possibly none / one / both)"""
-    n = w.choose([0, 1, 2], "existing keys")
-    vals = {k: tok(f"v_{k}") for k in ["a", "b"][:n]}
-    disks["dir"] = {k: Stored(v) for k, v in vals.items()}
-    o = open_dict(I)
-    return o, vals
-
-
-def reopened(I):
-    o2 = open_dict(I)
-    return {k: I.run(I.getitem(o2, k)) for k in I.run(I.iterate(o2))}
-
-
-def same_map(got, want):
-    return set(got) == set(want) and all(got[k] is want[k] for k in want)
-
-
-OPS = ["setitem new", "setitem existing", "delitem", "delitem missing", "popitem", "pop", "clear", "update", "setdefault new", "setdefault existing",
-       "mutate in place then flush"]
-# (a value mutated in place and *not* flushed: whether it is persisted depends on the finalizer running at garbage
-#  collection - not decided, see NOT_DECIDED)
-
-
-@task("operations", PROP, functions=[f"{Q}.__init__", f"{Q}.__setitem__", f"{Q}.__getitem__", f"{Q}.__delitem__", f"{Q}.popitem", f"{Q}.flush",
-                                     f"{Q}.reload", f"{Q}.__iter__", f"{Q}.__len__"],
-      expect=[f"{Q}#invariant[cache and disk agree after every operation; reopening yields the last written values]",
-              f"{Q}.__init__#ensures[a new instance on the directory holds load(disk[k]) for every stored k]"],
-      covers=["operation: " + op for op in OPS])
-def operations(I):
-    w = I.w
-    disks = {}
-    install(I, disks)
-    o, vals = state(I, w, disks)
-    rp = {"replay": "persistent.history"}
-    w.check(f"{Q}.__init__#ensures[a new instance on the directory holds load(disk[k]) for every stored k]",
-            same_map({k: I.run(I.getitem(o, k)) for k in I.run(I.iterate(o))}, vals) and call_method(I, o, "__len__") == len(vals), rp)
-    op = w.choose(OPS, "operation")
-    want = dict(vals)
-    new = tok("v_new")
-    ok = True
-    applicable = True
-    if op == "setitem new":
-        I.run(I.setitem(o, "c", new))
-        want["c"] = new
-    elif op == "setitem existing":
-        if "a" not in vals:
-            applicable = False
-        else:
-            I.run(I.setitem(o, "a", new))
-            want["a"] = new
-    elif op == "delitem":
-        if "a" not in vals:
-            applicable = False
-        else:
-            I.run(I.delitem(o, "a"))
-            del want["a"]
-    elif op == "delitem missing":
-        r = catch(I, lambda: None) if False else None
+    def get(I_, a, k):
         try:
-            I.run(I.delitem(o, "zz"))
-            ok = False
+            return I_.run(I_.getitem(o, a[0]))
         except PyRaise as pr:
-            ok = I.exc_isinstance(pr.exc, "KeyError")
-    elif op == "popitem":
-        if not vals:
-            applicable = False
-        else:
-            k, v = call_method(I, o, "popitem")
-            ok = k in vals and v is vals[k]
-            del want[k]
-    elif op == "pop":
-        if "b" not in vals:
-            applicable = False
-        else:
-            v = I.call_value(I.getattr(o, "pop"), "b")
-            ok = v is vals["b"]
-            del want["b"]
-    elif op == "clear":
+            if not I_.exc_isinstance(pr.exc, "KeyError"):
+                raise
+            return a[1] if len(a) > 1 else None
+
+    def contains(I_, a, k):
+        try:
+            I_.run(I_.getitem(o, a[0]))
+        except PyRaise as pr:
+            if not I_.exc_isinstance(pr.exc, "KeyError"):
+                raise
+            return False
+        return True
+    for name, f in (("pop", pop), ("clear", clear), ("update", update), ("setdefault", setdefault), ("items", items), ("keys", keys),
+                    ("values", values), ("get", get), ("__contains__", contains)):
+        if o.cls.lookup(name) is None:       # a method the class defines itself is the real one: never shadowed by the mix-in
+            o.attrs[name] = native(f)
+
+
+# ---------------------------------------------------------------------------------------------------------------------
+# the dictionary model (from the statement) and the real operations, side by side
+
+class Ghost:
+    def __init__(self, contents):
+        self.mem = dict(contents)
+        self.written = dict(contents)
+        self.reloaded = False      # reload() was called on the current instance (case of the known finding)
+
+
+def same(got, want):
+    """got: key -> contents (or None when the thing found is not a value); want: key -> contents"""
+    if set(got) != set(want):
+        return False
+    if any(got[k] is None for k in got):
+        return False
+    return And(*[Eq(got[k], want[k]) for k in sorted(want)]) if want else True
+
+
+def content(v):
+    return v.content if isinstance(v, Val) else None
+
+
+def is_content(v, c):
+    return Eq(v.content, c) if isinstance(v, Val) else False
+
+
+def shown(I, o):
+    """what the real mapping shows: key -> contents (real __iter__ / __getitem__), and its real __len__"""
+    ks = list(I.run(I.iterate(o)))
+    return {k: content(I.run(I.getitem(o, k))) for k in ks}, (call_method(I, o, "__len__") == len(ks) and len(set(ks)) == len(ks))
+
+
+def on_disk(env, directory="dir"):
+    return {k: (s.content if isinstance(s, Stored) else None) for k, s in env.disks.get(directory, {}).items()}
+
+
+def key_error(I, f):
+    try:
+        f()
+    except PyRaise as pr:
+        return I.exc_isinstance(pr.exc, "KeyError")
+    return False
+
+
+def apply_op(I, env, o, g, op):
+    """run one public operation of the real class, update the model; -> the operation's own result is what a dict gives"""
+    kind = op[0]
+    k = op[1] if len(op) > 1 else None
+    if kind == "set":
+        v = env.value(f"set {k}")
+        I.run(I.setitem(o, k, v))
+        g.mem[k] = g.written[k] = v.content
+        return True
+    if kind == "reset":
+        # d[k] = d[k]: the object already stored (possibly edited in place) is assigned again - a write like any other
+        v = I.run(I.getitem(o, k))
+        I.run(I.setitem(o, k, v))
+        g.written[k] = g.mem[k]
+        return isinstance(v, Val)
+    if kind == "del":
+        I.run(I.delitem(o, k))
+        del g.mem[k], g.written[k]
+        return True
+    if kind == "del-missing":
+        return key_error(I, lambda: I.run(I.delitem(o, "zz")))
+    if kind == "popitem":
+        if not g.mem:
+            return key_error(I, lambda: call_method(I, o, "popitem"))
+        r = call_method(I, o, "popitem")
+        if not (isinstance(r, tuple) and len(r) == 2 and r[0] in g.mem):
+            return False
+        ok = is_content(r[1], g.mem[r[0]])
+        del g.mem[r[0]], g.written[r[0]]
+        return ok
+    if kind == "pop":
+        v = I.call_value(I.getattr(o, "pop"), k)
+        ok = is_content(v, g.mem[k])
+        del g.mem[k], g.written[k]
+        return ok
+    if kind == "pop-missing-default":
+        dflt = env.value("default")
+        return I.call_value(I.getattr(o, "pop"), "zz", dflt) is dflt
+    if kind == "pop-missing":
+        return key_error(I, lambda: I.call_value(I.getattr(o, "pop"), "zz"))
+    if kind == "clear":
         I.call_value(I.getattr(o, "clear"))
-        want = {}
-    elif op == "update":
-        I.call_value(I.getattr(o, "update"), {"a": new, "c": new})
-        want["a"] = new
-        want["c"] = new
-    elif op == "setdefault new":
-        r = I.call_value(I.getattr(o, "setdefault"), "c", new)
-        ok = r is new
-        want["c"] = new
-    elif op == "setdefault existing":
-        if "a" not in vals:
-            applicable = False
+        g.mem.clear()
+        g.written.clear()
+        return True
+    if kind == "update":
+        src = {kk: env.value(f"update {kk}") for kk in op[1]}
+        I.call_value(I.getattr(o, "update"), src)
+        for kk, v in src.items():
+            g.mem[kk] = g.written[kk] = v.content
+        return True
+    if kind == "setdefault":
+        v = env.value(f"setdefault {k}")
+        r = I.call_value(I.getattr(o, "setdefault"), k, v)
+        if k in g.mem:
+            return is_content(r, g.mem[k])
+        g.mem[k] = g.written[k] = v.content
+        return r is v
+    if kind == "mutate":
+        # an in-place edit of the top-level value the mapping hands out: visible at once, durable with the next
+        # flush() / write-back, never by itself
+        v = I.run(I.getitem(o, k))
+        if not isinstance(v, Val):
+            return False
+        v.content = g.mem[k] = env.contents(f"{k} edited in place")
+        return True
+    if kind == "flush":
+        r = call_method(I, o, "flush")
+        g.written = dict(g.mem)
+        return r is None
+    if kind == "reload":
+        r = call_method(I, o, "reload")
+        g.mem = dict(g.written)
+        g.reloaded = True
+        return r is None
+    if kind == "read":
+        ok = key_error(I, lambda: I.run(I.getitem(o, "zz")))
+        ok = ok and I.call_value(I.getattr(o, "get"), "zz") is None
+        ok = ok and I.call_value(I.getattr(o, "__contains__"), "zz") is False
+        for kk in g.mem:
+            ok = ok and I.call_value(I.getattr(o, "__contains__"), kk) is True
+        return ok
+    raise EngineError(f"unknown operation {op!r}")
+
+
+def guarded(I, w, name, info, f):
+    """an object-language exception escaping from an operation of the history is a violation of `name`, not an engine error"""
+    try:
+        return f()
+    except PyRaise as pr:
+        w.check(name, False, dict(info, raised=repr(pr.exc)))
+        raise PathEnd("operation raised")
+
+
+def close_and_reopen(I, env, o, mode):
+    if mode == "gc":
+        env.collect(o)
+    o2 = env.open()
+    return o2
+
+
+def init_state(I, w, env, keys, dirty):
+    """an arbitrary INV state: `keys` present; the ones in `dirty` edited in place since their last write"""
+    cont = {k: w.int(f"contents({k})") for k in keys}
+    env.disks["dir"] = {k: Stored(c) for k, c in cont.items()}
+    o = env.open()
+    g = Ghost(cont)
+    for k in dirty:
+        apply_op(I, env, o, g, ("mutate", k))
+    return o, g
+
+
+def ops_for(keys):
+    ex = list(keys)
+    ops_ = [("set", k) for k in ex + ["c"]] + [("reset", k) for k in ex] + [("del", k) for k in ex] + [("del-missing",), ("popitem",)] + [("pop", k) for k in ex]
+    ops_ += [("pop-missing-default",), ("pop-missing",), ("clear",), ("update", tuple(ex[:1] + ["c"]))]
+    ops_ += [("setdefault", k) for k in ex + ["c"]] + [("mutate", k) for k in ex] + [("flush",), ("reload",), ("read",)]
+    return ops_
+
+
+def opname(op):
+    return op[0] if len(op) == 1 else f"{op[0]} {'+'.join(op[1]) if isinstance(op[1], tuple) else op[1]}"
+
+
+KINDS = ["set", "reset", "del", "del-missing", "popitem", "pop", "pop-missing-default", "pop-missing", "clear", "update", "setdefault", "mutate", "flush",
+         "reload", "read"]
+STATES = [((), ()), (("a",), ()), (("a",), ("a",)), (("a", "b"), ()), (("a", "b"), ("a",)), (("a", "b"), ("b",)), (("a", "b"), ("a", "b"))]
+FUNCS = [f"{Q}.__init__", f"{Q}.__setitem__", f"{Q}.__getitem__", f"{Q}.__delitem__", f"{Q}.popitem", f"{Q}.flush", f"{Q}.reload", f"{Q}.__iter__",
+         f"{Q}.__len__"]
+
+
+def js(op):
+    return [op[0]] + [list(x) if isinstance(x, tuple) else x for x in op[1:]]
+
+
+@task("step", PROP, functions=FUNCS,
+      expect=[INIT_ENS, OP_RES, INV_CACHE, INV_DISK, INV_FIN, CLOSE_CRASH, CLOSE_GC],
+      covers=["operation: " + k for k in KINDS] + ["state: empty", "state: an unflushed in-place edit", "state: two keys", "closing: crash", "closing: gc",
+                                                  "popitem on an empty mapping"])
+def step(I):
+    w = I.w
+    env = Env(I)
+    keys, dirty = STATES[w.choose(list(range(len(STATES))), "state")]
+    state = {"keys": list(keys), "dirty": list(dirty)}
+    rp = {"replay": "persistent.step", "state": state}
+    o, g = guarded(I, w, INIT_ENS, dict(rp, clause="init"), lambda: init_state(I, w, env, keys, dirty))
+    got, len_ok = shown(I, o)
+    w.check(INIT_ENS, And(len_ok, same(got, g.mem), same(on_disk(env), g.written), env.armed(o)), dict(rp, clause="init"))
+    op = w.choose(ops_for(keys), "operation")
+    rp = dict(rp, op=js(op))
+    ok = guarded(I, w, OP_RES, dict(rp, clause="op"), lambda: apply_op(I, env, o, g, op))
+    w.cover("operation: " + op[0])
+    if not keys:
+        w.cover("state: empty")
+        if op[0] == "popitem":
+            w.cover("popitem on an empty mapping")
+    if dirty:
+        w.cover("state: an unflushed in-place edit")
+    if len(keys) == 2:
+        w.cover("state: two keys")
+    w.check(OP_RES, ok, dict(rp, clause="op"))
+    got, len_ok = guarded(I, w, INV_CACHE, dict(rp, clause="cache"), lambda: shown(I, o))
+    w.check(INV_CACHE, And(len_ok, same(got, g.mem)), dict(rp, clause="cache"))
+    w.check(INV_DISK, And(same(on_disk(env), g.written), set(g.mem) == set(g.written)), dict(rp, clause="disk"))
+    w.check_kf(INV_FIN, env.armed(o), KF, op[0] == "reload", dict(rp, clause="finalizer"))
+    mode = w.choose(["crash", "gc"], "closing")
+    w.cover("closing: " + mode)
+    rp = dict(rp, close=mode, clause="close")
+    name = CLOSE_GC if mode == "gc" else CLOSE_CRASH
+    o2 = guarded(I, w, name, rp, lambda: close_and_reopen(I, env, o, mode))
+    got, len_ok = guarded(I, w, name, rp, lambda: shown(I, o2))
+    if mode == "gc":
+        w.check_kf(CLOSE_GC, And(len_ok, same(got, g.mem)), KF, op[0] == "reload", rp)
+    else:
+        w.check(CLOSE_CRASH, And(len_ok, same(got, g.written)), rp)
+
+
+# ---- bounded cross-check: all histories of length 3 (incl. reopen points) from a mixed state, closed either way
+H_OPS = [("set", "a"), ("set", "c"), ("reset", "b"), ("del", "a"), ("pop", "b"), ("popitem",), ("clear",), ("mutate", "a"), ("mutate", "b"), ("flush",), ("reload",),
+         ("reopen", "gc"), ("reopen", "crash")]
+H_LEN = 3
+H_BOUND = (f"histories of {H_LEN} operations out of {len(H_OPS)} (set existing / new / the same object again, delete, pop, popitem, clear, in-place edit, flush, reload, "
+           "reopen after gc / crash) from the state {a: clean, b: edited in place}, then closing by gc or crash")
+
+
+def applicable(op, g):
+    if op[0] in ("del", "pop", "mutate", "reset"):
+        return op[1] in g.mem
+    return True
+
+
+def run_history(I, w, first):
+    env = Env(I)
+    rp = {"replay": "persistent.history", "state": {"keys": ["a", "b"], "dirty": ["b"]}}
+    o, g = init_state(I, w, env, ("a", "b"), ("b",))
+    hist = []
+    tainted_gc = False          # an instance on which reload() was called gets garbage collected (case of the known finding)
+    for i in range(H_LEN):
+        op = first if i == 0 else w.choose(H_OPS, f"operation {i + 1}")
+        if not applicable(op, g):
+            raise PathEnd("operation not applicable")
+        hist.append(js(op))
+        info = dict(rp, history=list(hist), close=None)
+        if op[0] == "reopen":
+            if op[1] == "gc":
+                tainted_gc = tainted_gc or g.reloaded
+                g.written = dict(g.mem)          # the write-back
+            else:
+                g.mem = dict(g.written)          # unflushed in-place edits die with the process
+            g.reloaded = False
+            o = guarded(I, w, HIST, info, lambda: close_and_reopen(I, env, o, op[1]))
         else:
-            r = I.call_value(I.getattr(o, "setdefault"), "a", new)
-            ok = r is vals["a"]
-    elif op in ("mutate in place then flush", "mutate in place without flush"):
-        if "a" not in vals:
-            applicable = False
-        else:
-            # the cached top-level value is replaced behind the mapping's back (stands for an in-place mutation of a
-            # mutable value): only flush() makes it persistent
-            o._cache["a"] = new
-            if op.endswith("then flush"):
-                call_method(I, o, "flush")
-                want["a"] = new
-    if not applicable:
-        return
-    w.cover("operation: " + op)
-    cache_now = {k: I.run(I.getitem(o, k)) for k in I.run(I.iterate(o))}
-    cache_want = dict(want)
-    if op == "mutate in place without flush":
-        cache_want["a"] = new                 # visible in this instance, not persisted
-    w.check(f"{Q}#invariant[cache and disk agree after every operation; reopening yields the last written values]",
-            ok and same_map(cache_now, cache_want) and same_map(reopened(I), want), dict(rp, op=op))
+            ok = guarded(I, w, HIST, info, lambda: apply_op(I, env, o, g, op))
+            if ok is not True:
+                w.check_kf(HIST, ok, KF, tainted_gc, info)
+    mode = w.choose(["crash", "gc"], "closing")
+    info = dict(rp, history=hist, close=mode)
+    if mode == "gc":
+        tainted_gc = tainted_gc or g.reloaded
+    want = g.mem if mode == "gc" else g.written
+    o2 = guarded(I, w, HIST, info, lambda: close_and_reopen(I, env, o, mode))
+    got, len_ok = guarded(I, w, HIST, info, lambda: shown(I, o2))
+    w.cover("history closed by " + mode)
+    w.check_kf(HIST, And(len_ok, same(got, want)), KF, tainted_gc, info)
+
+
+def _mk_history_task(first):
+    @task("history-" + opname(first).replace(" ", "-"), PROP, functions=FUNCS, expect=[HIST], covers=["history closed by gc", "history closed by crash"],
+          bounded=H_BOUND)
+    def history_task(I):
+        run_history(I, I.w, first)
+    return history_task
+
+
+for _first in H_OPS:
+    _mk_history_task(_first)
+
+
+# ---- must-fail twins
+TWIN_CRASH = "twin:an in-place edit that was never flushed is durable even if the finalizer never runs"
+TWIN_GC = "twin:after garbage collection the directory still holds the contents from before the unflushed in-place edit"
+
+
+@task("twin-unflushed-edit-survives-crash", PROP, functions=FUNCS, twin=TWIN_CRASH)
+def twin_crash(I):
+    w = I.w
+    env = Env(I)
+    o, g = init_state(I, w, env, ("a",), ("a",))
+    got, _ = shown(I, close_and_reopen(I, env, o, "crash"))
+    w.check(TWIN_CRASH, same(got, g.mem))
+
+
+@task("twin-gc-writes-nothing", PROP, functions=FUNCS, twin=TWIN_GC)
+def twin_gc(I):
+    w = I.w
+    env = Env(I)
+    o, g = init_state(I, w, env, ("a",), ("a",))
+    got, _ = shown(I, close_and_reopen(I, env, o, "gc"))
+    w.check(TWIN_GC, same(got, g.written))
